@@ -113,6 +113,9 @@ func genC10Pure(t *rapid.T) in10 {
 
 func isOverflowPanic(p interface{}) bool {
 	s := fmt.Sprint(p)
+	if strings.Contains(s, "Int64()") || strings.Contains(s, "Uint64()") {
+		return false // conversion of an existing number to a machine integer: not a range refusal
+	}
 	return strings.Contains(s, "overflow") || strings.Contains(s, "out of range") || strings.Contains(s, "out of bound")
 }
 
